@@ -77,6 +77,9 @@ def spl_of(chain):
         f = lambda x: names.get(x, x)
         if op == "head":
             parts.append("head %d" % c["n"])
+        elif op == "headx":
+            parts.append("head limit=%d %s%s%d%s%s" % (c["n"], f(c["f"]), ">" if c["cmp"] == "gt" else "<", c["k"],
+                                                     " null=true" if c["nul"] else "", " keeplast=true" if c["keeplast"] else ""))
         elif op == "tail":
             parts.append("tail %d" % c["n"])
         elif op == "dedup":
@@ -170,9 +173,32 @@ def has_toprare(chain):
     return any(c["op"] in ("top", "rare") for c in chain)
 
 
-def concrete_row(r):
+# monotone concretisations of the model's values 1, 2, 3 of field `a` (metamorphic runs only): commands whose result
+# depends on the magnitude of the whole value range (bin without span) need ranges that differ by orders of magnitude
+SCALES = [(1, 2, 3), (1, 55, 950), (50, 60, 300), (7, 70, 7000), (2, 30, 31)]
+
+
+def concrete_row(r, scale=None):
     """model input row -> list of JSON values for columns a, b, m"""
-    return [r["a"], None if r["b"] == NULL else r["b"], MCODE[r["m"]]]
+    a = r["a"] if scale is None else scale[r["a"] - 1]
+    return [a, None if r["b"] == NULL else r["b"], MCODE[r["m"]]]
+
+
+def rank_pattern(table):
+    """order type of column a: for every row whether it sets a new minimum / new maximum / both / neither of the rows
+    before it - tables are stratified by it so that running-range logic sees every shape (a later row below AND a later
+    row above everything seen before, ...)"""
+    pat, lo, hi = [], None, None
+    for r in table:
+        v = r["a"]
+        if lo is None:
+            pat.append("f")
+        else:
+            pat.append(("l" if v < lo else "") + ("h" if v > hi else "") or "m")
+        lo = v if lo is None else min(lo, v)
+        hi = v if hi is None else max(hi, v)
+    # which extremes are still to come after the first row decides whether ONE later batch can extend both ends
+    return "".join(pat[:1]) + "|" + ",".join(sorted(set(pat[1:])))
 
 
 def norm_model_row(r, kinds):
@@ -376,6 +402,12 @@ META_SPL = [
     'eval d=substr(m,1,1)',
     'bin a',
     'bin bins=2 a',
+    'bin bins=10 a',
+    'bin bins=100 a',
+    'bin a as g',
+    'where a>0 | bin bins=5 a',
+    'bin bins=20 a | stats count as c by a',
+    'eval d=a+a | bin d',
     'rex field=m "(?<r>[0-9])" | where a>1',
     'regex m="1" | head 1',
     'eval d=tostring(a) | dedup d',
@@ -397,10 +429,12 @@ def run(chk):
     # ---- model
     mc = [("MC_Pipeline_q1", "every single command x tables <=3 rows x all chunkings (<=1 empty batch, both EOF conventions)"),
           ("MC_Pipeline_q1ss", "streamstats window / reset_on_change with state carried across batches (what the command means)"),
+          ("MC_Pipeline_q1tp", "two-pass commands and head-with-expression, alone and in short chains, tables <=4 rows with three distinct values"),
           ("MC_Pipeline_q2", "every valid pair of commands x tables <=3 rows x all chunkings")]
     if not quick:
         mc = [("MC_Pipeline_t1", "every single command x tables <=4 rows (5 row kinds) x all chunkings"),
               ("MC_Pipeline_q1ss", "streamstats window / reset_on_change, state carried"),
+              ("MC_Pipeline_q1tp", "two-pass commands and head-with-expression, tables <=4 rows with three distinct values"),
               ("MC_Pipeline_t2", "every valid pair x tables <=3 rows x all chunkings incl. empty batches and both EOF conventions"),
               ("MC_Pipeline_t3", "core triples x tables <=3 rows x all chunkings")]
     if os.environ.get("VERIF_DEV_SKIP_MC"):   # development only (mutant runs): the model runs do not depend on the Go tree
@@ -418,11 +452,11 @@ def run(chk):
 
     # ---- behaviours
     lines = []
-    pick_sc, pick = gen_pick(chk.seed, 110 if quick else 500)
+    pick_sc, pick = gen_pick(chk.seed, 90 if quick else 500)
     try:
-        gens = [("Gen_Pipeline_q1", None), ("Gen_Pipeline_q1ss", None), ("Gen_Pipeline_q2", pick), ("Gen_Pipeline_q3", pick)]
+        gens = [("Gen_Pipeline_q1", None), ("Gen_Pipeline_q1ss", None), ("Gen_Pipeline_q1tp", None), ("Gen_Pipeline_q2", pick), ("Gen_Pipeline_q3", pick)]
         if not quick:
-            gens = [("Gen_Pipeline_t1", None), ("Gen_Pipeline_q1ss", None), ("Gen_Pipeline_t2", pick), ("Gen_Pipeline_q3", pick)]
+            gens = [("Gen_Pipeline_t1", None), ("Gen_Pipeline_q1ss", None), ("Gen_Pipeline_q1tp", None), ("Gen_Pipeline_t2", pick), ("Gen_Pipeline_q3", pick)]
         for cfg, extra in gens:
             beh, r = vlib.tlc_generate("Gen_Pipeline", cfg + ".cfg", timeout=1500, extra_files=[extra] if extra else None)
             chk.add_tlc(cfg, r, "behaviour generation")
@@ -539,9 +573,9 @@ def fn_level(chk, binary, sc, lines, quick, rnd):
         if is_meta(b["chain"]):
             continue
         if quick:
-            per = None if b["src"] == "Gen_Pipeline_q1ss" else (10 if b["src"] == "Gen_Pipeline_q1" else 6)
+            per = None if b["src"] == "Gen_Pipeline_q1ss" else (8 if b["src"] in ("Gen_Pipeline_q1", "Gen_Pipeline_q1tp") else 5)
         else:
-            per = None if b["src"] in ("Gen_Pipeline_q1ss", "Gen_Pipeline_t1") else 12
+            per = None if b["src"] in ("Gen_Pipeline_q1ss", "Gen_Pipeline_t1") else (40 if b["src"] == "Gen_Pipeline_q1tp" else 12)
         for c in cases_of_line(li, b, quick, rnd, per):
             meta[c["id"]] = (li, c.pop("_sizes"), c["eof_last"])
             cases.append(c)
@@ -638,11 +672,20 @@ def meta_level(chk, binary, sc, lines, quick, rnd):
     """commands without a TLA+ per-row operator: expected = real single-batch run; all enumerated chunkings must agree."""
     tables = {}
     for b in lines:
-        if b["src"].endswith("q1") or b["src"].endswith("t1"):
+        if b["src"].endswith(("q1", "t1", "q1tp")):
             tables[json.dumps(b["table"])] = b
-    tabs = list(tables.values())
+    tabs = [b for b in tables.values() if len(b["table"]) >= 2]
     rnd.shuffle(tabs)
-    tabs = [b for b in tabs if len(b["table"]) >= 2][: (12 if quick else 80)]
+    # stratified by the order type of the numeric column (round-robin over the rank patterns)
+    strata = {}
+    for b in tabs:
+        strata.setdefault((rank_pattern(b["table"]), len(b["table"])), []).append(b)
+    tabs = []
+    while any(strata.values()) and len(tabs) < (18 if quick else 100):
+        for k in sorted(strata):
+            if strata[k] and len(tabs) < (18 if quick else 100):
+                tabs.append(strata[k].pop())
+    scale_of = lambda si, ti: SCALES[(si + ti) % len(SCALES)]
     spls = list(META_SPL)
     def open_order_then_order_sensitive(chain):
         # after stats/top/rare/sort the order (among ties) is open; head/tail/dedup/streamstats behind it may then
@@ -651,7 +694,7 @@ def meta_level(chk, binary, sc, lines, quick, rnd):
         for c in chain:
             if c["op"] in ("stats", "top", "rare", "sort"):
                 seen = True
-            elif seen and c["op"] in ("head", "tail", "dedup", "streamstats"):
+            elif seen and c["op"] in ("head", "headx", "tail", "dedup", "streamstats"):
                 return True
         return False
     for b in lines:
@@ -665,10 +708,10 @@ def meta_level(chk, binary, sc, lines, quick, rnd):
         for ti, b in enumerate(tabs):
             fake = {"chain": [], "table": b["table"], "chunkings": b["chunkings"], "eof": b["eof"]}
             n = len(b["table"])
-            rows = [concrete_row(r) for r in b["table"]]
+            rows = [concrete_row(r, scale_of(si, ti)) for r in b["table"]]
             combos = [(sz, e) for sz in b["chunkings"] for e in b["eof"]]
-            if quick and len(combos) > 10:
-                combos = [([n], False)] + rnd.sample([x for x in combos if x != ([n], False)], 9)
+            if quick and len(combos) > 12:
+                combos = [([n], False)] + rnd.sample([x for x in combos if x != ([n], False)], 11)
             for ci, (sz, e) in enumerate(combos):
                 batches, i = [], 0
                 for k in sz:
@@ -692,7 +735,7 @@ def meta_level(chk, binary, sc, lines, quick, rnd):
                 if key not in reported:
                     reported.add(key)
                     chk.violation(key, "`%s` crashed on a single batch: %s" % (spl, classify(ref[0])[1][:500]),
-                                  {"kind": "meta", "spl": spl, "rows": [concrete_row(x) for x in tabs[ti]["table"]]})
+                                  {"kind": "meta", "spl": spl, "rows": [concrete_row(x, scale_of(si, ti)) for x in tabs[ti]["table"]]})
             continue
         unordered = any(u in spl for u in META_UNORDERED)
         canon = lambda rr: [json.dumps({k: v for k, v in x.items() if v is not None and k != ""}, sort_keys=True) for x in (rr.get("rows") or [])]
@@ -718,8 +761,8 @@ def meta_level(chk, binary, sc, lines, quick, rnd):
                     continue
                 reported.add(key)
                 chk.violation(key, "`%s` over rows %s: single batch gives %s, batches of %s%s give %s %s" % (
-                    spl, [concrete_row(x) for x in tabs[ti]["table"]], want, sz, " (+EOF)" if e else "", got if got is not None else st, detail[:300]),
-                    {"kind": "meta", "spl": spl, "rows": [concrete_row(x) for x in tabs[ti]["table"]], "sizes": sz, "eof_last": e})
+                    spl, [concrete_row(x, scale_of(si, ti)) for x in tabs[ti]["table"]], want, sz, " (+EOF)" if e else "", got if got is not None else st, detail[:300]),
+                    {"kind": "meta", "spl": spl, "rows": [concrete_row(x, scale_of(si, ti)) for x in tabs[ti]["table"]], "sizes": sz, "eof_last": e})
     chk.cov["meta"] = {"spl": len(spls), "tables": len(tabs), "chunkings_run": len(cases)}
 
 
